@@ -17,6 +17,7 @@ import (
 
 	"verif/internal/gen"
 	"verif/internal/runner"
+	"verif/internal/sim"
 )
 
 type c18 struct{}
@@ -26,7 +27,7 @@ func init() { register(c18{}) }
 func (c18) ID() string    { return "C18" }
 func (c18) Level() string { return "exploration" }
 func (c18) Rule() string {
-	return "two case families. (reachable) a document is driven through a C01/C07-style history - a subject and a concurrent peer " +
+	return "three case families. (reachable) a document is driven through a C01/C07-style history - a subject and a concurrent peer " +
 		"exchanging changes through the wire codec, scar steps (concurrent edits, garbage collection, snapshot round trip), styles " +
 		"and style removal on text and trees, non-BMP characters, nested containers, counters incl. dedup - and at sampled points the " +
 		"round trip compaction and revisions use is performed on it: y = yson.FromCRDT(root); s = y.Marshal(); Unmarshal(s) must " +
@@ -37,7 +38,12 @@ func (c18) Rule() string {
 		"every client attaching after a compaction receives), which must show the same canonical content. (literal) random YSON " +
 		"values (nested objects/arrays, every primitive type incl. edge numbers, bytes, dates, counters, text runs with attributes " +
 		"and surrogate pairs, trees with attributes) are marshalled, parsed, re-marshalled (equal text), set into a document and " +
-		"exported again (equal text). Non-trivial = >=3 element kinds present or >=1 styled text/tree."
+		"exported again (equal text). (revision, every 10th case) on the live server a generated multi-client history is brought to quiescence, " +
+		"CreateRevision is called (its snapshot, imported into an empty document, must show what every synced client shows), the clients " +
+		"edit on, optionally a second revision is created, then RestoreRevision: after a quiescent round every attached client and a " +
+		"client attaching afterwards must show exactly the content present at revision creation; edits continue on top, the second " +
+		"revision is restored, the first one again; GetRevision at the end still returns the content at creation. " +
+		"Non-trivial = >=3 element kinds present or >=1 styled text/tree."
 }
 func (c18) Assumptions() []string {
 	return []string{"in-process; packs.Compact's own rebuild-compare on the real server is exercised by C10 on every compaction",
@@ -51,18 +57,24 @@ func (c18) NumCases(tier string, _ int64) int {
 }
 func (c18) Exhaustive(string) bool { return false }
 func (c18) Floors(string) []runner.Floor {
-	return []runner.Floor{{Stat: "round_trips", Min: 8000}, {Stat: "third_document_comparisons", Min: 5000}, {Stat: "literal_values", Min: 1000}}
+	return []runner.Floor{{Stat: "round_trips", Min: 8000}, {Stat: "third_document_comparisons", Min: 5000}, {Stat: "literal_values", Min: 1000},
+		{Stat: "revisions_restored", Min: 300}, {Stat: "restores_compared_on_fresh_attach", Min: 300}}
 }
 
 type c18Worker struct {
 	tier string
 	seed int64
+	sw   *simWorker // live server, booted on the first revision case
 }
 
 func (c18) NewWorker(tier string, seed int64) (runner.Worker, error) {
 	return &c18Worker{tier: tier, seed: seed}, nil
 }
-func (w *c18Worker) Close() {}
+func (w *c18Worker) Close() {
+	if w.sw != nil {
+		w.sw.Close()
+	}
+}
 
 func safeYSON(f func() error) (err error) {
 	defer func() {
@@ -415,7 +427,9 @@ func (w *c18Worker) runLiteral(res *runner.CaseResult, idx int) {
 
 func (w *c18Worker) Run(idx int) runner.CaseResult {
 	res := runner.CaseResult{Case: fmt.Sprintf("c18-%d", idx)}
-	if idx%3 == 2 {
+	if idx%10 == 9 {
+		w.runRevision(&res, idx, nil)
+	} else if idx%3 == 2 {
 		w.runLiteral(&res, idx)
 	} else {
 		w.runReachable(&res, idx)
@@ -426,12 +440,21 @@ func (w *c18Worker) Run(idx int) runner.CaseResult {
 func (w *c18Worker) Replay(data json.RawMessage) runner.CaseResult {
 	res := runner.CaseResult{Case: "replay"}
 	var rp struct {
-		Family string `json:"family"`
-		Seed   int64  `json:"seed"`
-		Idx    int    `json:"idx"`
+		Family string       `json:"family"`
+		Seed   int64        `json:"seed"`
+		Idx    int          `json:"idx"`
+		H      *sim.History `json:"h"`
 	}
 	_ = json.Unmarshal(data, &rp)
 	w2 := &c18Worker{tier: w.tier, seed: rp.Seed}
+	if rp.Family == "revision" {
+		if rp.H != nil && len(rp.H.Steps) == 0 {
+			rp.H = nil
+		}
+		w2.runRevision(&res, rp.Idx, rp.H)
+		w2.Close()
+		return res
+	}
 	if rp.Family == "witness-dedup" {
 		// pinned witness of F-DEDUP-HLL-OPS: a fixed document, the fence switched off
 		d := document.New(key.Key("c18-w"))
